@@ -7,6 +7,13 @@ props = [json.loads(l) for l in open(os.path.join(V, "properties.jsonl"))]
 PV_NOTE = "trusts rustc/cargo, proptest's generators and shrinker, and the harness's own oracle code; verdict = held on the generated cases only"
 CLAIMED = {
  # id: (engine, technique, level text, level note)
+ "C01": ("pv", "round-trip property (inverse oracle) over generated inputs with proptest + exhaustive boundary-length sweep, 4 versions x 3 layers",
+         "parse(build(x)) == x on a deterministic sweep of all singled-out message lengths (0..100000 bytes) and on generated keys, nonces, Unicode messages, footers and assertions, for every local version at the core, generic and batteries-included layers.", PV_NOTE),
+ "C02": ("pv", "round-trip property (inverse oracle) over generated inputs and generated key pairs with proptest, 4 versions x 3 layers",
+         "verify(sign(m)) == m with a fresh Ed25519/P-384 key pair per case (RSA from a pool of 7) over the same message/footer/assertion space as C01, at all three layers.", PV_NOTE + "; RSA keys from a fixed pool"),
+ "C08": ("pv", "differential testing against an independent executable transcription of the specification (specref) pinned to the 45 official vectors; generated inputs with proptest",
+         "Byte-for-byte comparison of local tokens with the reference, cross-verification of public tokens in both directions, library decryption of reference tokens with arbitrary wire nonces, footer-segment structure; the reference re-derives every official vector before each run.",
+         PV_NOTE + "; RSA-PSS (ring) and Poly1305 primitives are shared with the library"),
  "C09": ("pv", "exhaustive length/prefix/hex sweeps + generated arbitrary text under catch_unwind (proptest); thorough adds a libFuzzer target",
          "Every decoded payload length 0..=400 per header/layer, every prefix/suffix/deletion of authentic tokens and every hex-key length 0..=200 are enumerated completely; arbitrary token text is generated (20k quick / 600k thorough). Any unwind is a violation keyed by panic location.", PV_NOTE),
  "C20": ("c20-driver", "exhaustive enumeration of generated feature configurations with an accept oracle (cargo check/run) and ddmin shrinking",
